@@ -179,6 +179,12 @@ static volatile sig_atomic_t timeo_told;
 static void
 timeo_cb(int UNUSED(signum))
 {
+	if (UNLIKELY(chld <= 0)) {
+		/* time's up and the job hasn't even been started yet,
+		 * come back for it */
+		alarm(1U);
+		return;
+	}
 	if (!timeo_told) {
 		/* the job is the leader of a process group of its own, see
 		 * run_task(), get everything the command line has started,
